@@ -891,6 +891,31 @@ func judgeInj(w *core.W, c *injCase) {
 			return
 		}
 	}
+	{
+		// the injector's own interfaces are types like any other: nobody registered a value for them, so a parameter of
+		// such a type is unresolvable (the injector does not offer itself)
+		ran := false
+		var err error
+		var pan interface{}
+		func() {
+			defer func() { pan = recover() }()
+			switch len(c.Regs) % 4 {
+			case 0:
+				_, err = nearest.Invoke(func(inject.TypeMapper) { ran = true })
+			case 1:
+				_, err = nearest.Invoke(func(inject.Invoker) { ran = true })
+			case 2:
+				_, err = nearest.Invoke(func(interface{ Apply(interface{}) error }) { ran = true })
+			default:
+				_, err = nearest.Invoke(func(inject.Injector) { ran = true })
+			}
+		}()
+		w.Count("parameters-of-the-injector's-own-interface-types")
+		if ran || err == nil || pan != nil {
+			w.Violate("inject", c, fmt.Sprintf("a parameter of one of the injector's own interface types (no value registered for it): body ran=%v, error=%v, panic=%v - want an error naming the type, body not run", ran, err, pan))
+			return
+		}
+	}
 	if c.Fast != "" {
 		// a user-written fast invoker that refuses (an error, with or without values next to it): what it returns is
 		// what Invoke returns
